@@ -37,6 +37,7 @@ type stats struct {
 	Specul    int            `json:"discarded_speculative_validations"`
 	Archive   int            `json:"heights_revalidated_from_archive"`
 	Unusual   int            `json:"unusually_encoded_transactions_offered"`
+	VoteFlips int            `json:"vote_window_closed_between_caching_and_proposing"`
 	Kinds     map[string]int `json:"tx_kinds_offered"`
 	Procs     map[string]int `json:"gomaxprocs"`
 	BigBlocks int            `json:"blocks_with_16_or_more_state_ops"`
@@ -110,7 +111,13 @@ func main() {
 		}
 		gen := sim.NewTxGen(r.Fork(), nKeys)
 		gen.Stable = 2 // two validators never leave: the committee stays alive
-		for b := 0; b < *nBlocks; b++ {
+		// the last chain is a long one: it runs through the checkpoint height (every 100th block carries a checkpoint in its
+		// certificate results), quietly until shortly before it
+		blocks, long := *nBlocks, c == *nChains-1
+		if long {
+			blocks = 104
+		}
+		for b := 0; b < blocks; b++ {
 			leader := nodes[b%3]
 			leader.Enter()
 			h := leader.C.FSM.Height()
@@ -118,6 +125,12 @@ func main() {
 			ntx := r.Intn(8)
 			if r.Chance(25) {
 				ntx = 10 + r.Intn(12)
+			}
+			if long && h < 96 {
+				ntx = 0
+				if r.Chance(10) {
+					ntx = 1
+				}
 			}
 			for i := 0; i < ntx; i++ {
 				tx, _ := gen.Next(leader.C.FSM)
@@ -138,6 +151,24 @@ func main() {
 			}
 			for _, nd := range nodes { // every operator votes yes on the governance proposals of this round
 				nd.ApproveGov(txs)
+			}
+			// sometimes the vote window closes between the moment the leader cached its proposal and the moment it proposes: the
+			// cached block was built while governance proposals on the approve list were acceptable, now every node rejects them
+			hasGov := false
+			for _, bz := range txs {
+				t := new(lib.Transaction)
+				if lib.Unmarshal(bz, t) == nil && (t.MessageType == fsm.MessageChangeParameterName || t.MessageType == fsm.MessageDAOTransferName) {
+					hasGov = true
+				}
+			}
+			if hasGov && r.Chance(50) {
+				if _, e := leader.Propose(txs); e == nil {
+					for _, nd := range nodes {
+						nd.CloseVoteWindow()
+					}
+					txs = nil // they are in the leader's mempool already
+					st.VoteFlips++
+				}
 			}
 			prop, perr := leader.Propose(txs)
 			if perr != nil {
